@@ -25,7 +25,7 @@ from ..canon import canon, content
 ID = "C06"
 LEAN = True  # cases are distinct by construction; see engine.Acc
 RULE = (
-    "libraries = every sequence of <=2 (quick) / <=3 (thorough) blocks over a 15-block universe (entries with 0/1/3 fields, keys shorter/equal/"
+    "libraries = every sequence of <=2 (quick) / <=3 (thorough) blocks over a 19-block universe (entries with 0/1/3 fields, keys shorter/equal/"
     "longer than the column, two entries with different longest keys, string, preamble, both comment kinds, four kinds of failed blocks incl. "
     "multi-line, CRLF and newline-terminated raw) x formats = indent x value_column x trailing_comma x block_separator x parsing_failed_comment; "
     "written through write_string with an empty stack (values verbatim) and with the default stack (values brace-enclosed) and compared with a "
@@ -37,6 +37,9 @@ ASSUMPTIONS = [
     "for strings, preambles and comments the exact layout is not constrained: they must end in a newline and re-parse to one block with the same content",
 ]
 STATIC_SAMPLES = [{"library": ["E3", "PF"], "format": ["\t", "auto", True, "\n\n", "% failed ({n} lines)"]}]
+
+
+from ..subtypes import S as _S, SE as _SE  # noqa: E402
 
 
 def universe():
@@ -54,6 +57,10 @@ def universe():
         # the last value ends in characters the writer itself puts after a value; a key held twice (built by a program)
         "Ev": Entry("v", "ev", [Field("a", "{x}"), Field("b", "1990,")], raw="@v{ev, a = {x}, b = 1990,}"),
         "Er": Entry("r", "er", [Field("a", "{1}"), Field("bbbbbbbbbb", "{2}"), Field("a", "{3}\n")], raw="@r{er, ...}"),
+        # keys and type that are strings without being exactly str (a str-Enum member's str() / format() is not its text),
+        # values of a plain str subclass: written as the text they are.  (No str-Enum VALUES: the default unparse stack
+        # encloses values by formatting them - as it must for ints, C10 - and C10 confines values to str and int.)
+        "Es": Entry(_SE.TITLE, _S("es"), [Field(_SE.YEAR, "{x}"), Field(_S("abcdefghi"), _S("3")), Field(_SE.TITLE, _S("{y}"))], raw="@title{es, ...}"),
         "S": String("s", "{v}", raw="@string{s = {v}}"),
         "P": Preamble('"pre"'),
         "IC": ImplicitComment("% free text"),
